@@ -401,7 +401,7 @@ def handle(case):
             if not (op == 'scale' and st['pair'] == 0) and not same(roots[s]._data, mirror[s]):
                 raise Fail(op, '%s (step %d): root data %r, NumPy reference %r' % (
                     desc, k, roots[s]._data.tolist(), mirror[s].tolist()))
-            obs_list.append([obs, obs_data(roots[s]._data)])
+            obs_list.append([obs, obs_data(v._data)])
         # ---- at the end: no other array was disturbed, every named view of every vector aliases its slice
         for s2 in range(6):
             if not same(roots[s2]._data, mirror[s2]):
